@@ -80,6 +80,10 @@ def impl_roundtrip(ts, sep, explicit, path_mode, scratch):
     return text, res
 
 
+LONG_ROWS = [255, 256, 257, 1019, 1020, 1021, 1022, 1023, 1024, 1025, 1026, 2047, 2048, 2049, 4095, 4096, 4097, 8191,
+             8193, 10000]
+
+
 def run(tier, seed, model_ok, translator, search=False):
     out = Outcome()
     out.rule = ("random well-formed bundles (1-4 tables, 0-5 columns, 0-6 rows, all column kinds incl. int64, NaN/NaT/inf, "
@@ -107,6 +111,14 @@ def run(tier, seed, model_ok, translator, search=False):
                     cases.append((k, ";", [t], k % 2 == 0, k % 3 == 0))
                     out.count("enumerated-small-shapes")
                     k += 1
+        # long tables: the number of rows has no limit, and nothing may change at a power of two or a buffer size
+        sizes = LONG_ROWS if thorough else [1025, 2049] + [rng.choice(LONG_ROWS) for _ in range(2)]
+        for n_row in sizes:
+            kinds = [rng.choice(["text", "onoff", "datetime", "num", "int"]) for _ in range(rng.choice([1, 2]))]
+            t, _ = wc.wf_table(rng, ";", rng.random() < 0.3, kinds=kinds, n_row=n_row)
+            cases.append((k, ";", [t], k % 2 == 0, k % 3 == 0))
+            out.count("long-tables")
+            k += 1
         for (i, sep, ts, explicit, path_mode) in cases:
             before = [snapshot(t) for t in ts]
             try:
